@@ -24,6 +24,6 @@ Theorem C20_link_verdict_on_extracted_guard :
      In (EvOk 0) (log st) /\ In (EvOk 1) (log st)).
 Proof.
   first [ left; split; [reflexivity | exact locked_single_owner]
-        | right; split; [reflexivity | exact race_admits_two_owners] ].
+        | right; split; [reflexivity | exact race_two_owners] ].
 Qed.
 Print Assumptions C20_link_verdict_on_extracted_guard.
